@@ -1,5 +1,6 @@
 import Verif.Util.Proto
 import Verif.Model.Import
+import Verif.Spec.Import
 import Verif.Model.Types.Subtype
 import Verif.Gen.SubtypeRules
 /-! Driver for stream `args` (C29): ops `arg engine T json sx`, `count engine np na`, `decl id`
@@ -294,6 +295,10 @@ def judgeArg (tS sx go : String) : Verdict :=
     match specJudge t go with
     | some (cls, says) => .violation cls says [headTag t]
     | none =>
+      -- spec on the encoded argument: a surviving composite with a foreign kind tag is never accepted
+      if go.startsWith "accept" && (match parseValue sx with | some p => Verif.Spec.Import.kindClash ctx p.1 | none => false) then
+        .violation "accepted-composite-kind-mismatch" "a composite whose kind tag differs from its declaration's kind is rejected (user error)" [headTag t]
+      else
       if go == "static-reject" then .skip "static-reject" else
       if go == "skip-non-address-location" then .skip "non-address-location" else
       if sx == "!oof" then .skip "oof" else
